@@ -31,13 +31,14 @@ a folded constant is reported under its own signature (`why=zero-sign`).
 from __future__ import annotations
 
 import gc
+import linecache
 from collections import Counter
 from fractions import Fraction
 
 from ..engine.runner import BaseCheck, ShardResult
 from ..engine import progen_c13 as pg
 from ..engine.loader import load_source
-from ..engine.tracer import TracingInterpreter, replay
+from ..engine.tracer import TraceOverflow, TracingInterpreter, replay
 
 import fpy2 as fp
 from fpy2.ast import fpyast as A
@@ -609,6 +610,9 @@ class Check(BaseCheck):
                 r.outcomes['compile-failed:' + type(e).__name__] += 1
                 continue
             if not act.all_returned():
+                if isinstance(act.error, TraceOverflow):
+                    r.count('too_long_not_judged')
+                    r.notes.append('CAP execution cut off by the tracer event/length cap: ' + prog.src.strip().splitlines()[-2].strip())
                 r.count('raised_not_judged')
                 r.outcomes['raises:' + type(act.error).__name__] += 1
                 continue
@@ -650,7 +654,8 @@ class Check(BaseCheck):
                     continue
                 for sig, case, detail in self.check_program(r, prog):
                     r.violate(sig, case, detail)
-                if idx % (m * 200) == k:
+                if idx % (m * 100) == k:
+                    linecache.clearcache()
                     gc.collect()
             if k == 0:
                 r.notes.append(f'family {label}: {j} programs generated' + ('' if sl is None else f', slice {sl[0]}/{sl[1]} run'))
